@@ -83,7 +83,7 @@ unsafe fn panic_at<const P: u8>() {
         // (b) everything restored, nothing leaked, lock free
         let mut i = 0;
         while i < 16 {
-            assert!(sim::ENT[0].bytes[i] == b0[i] && sim::ENT[1].bytes[i] == b1[i], "VERIF[C05,C02]: a faked function is not restored after unwinding out of the injector's scope");
+            assert!(sim::ENT[0].bytes[i] == b0[i] && sim::ENT[1].bytes[i] == b1[i], "VERIF[C05,C02,C04]: a faked function is not restored after unwinding out of the injector's scope (the next holder of the lock would still see the fake)");
             i += 1;
         }
         assert!(sim::live_jits() == 0, "VERIF[C05,C12]: a trampoline is still mapped after unwinding out of the injector's scope");
